@@ -157,7 +157,7 @@ void c01_case(Ctx &c) {
       }
       case 4: { VLOG(c, "COTmrProcess"); s.process_timers(); pending_process = false; after("deferred timer processing"); break; }
       case 5: {   // conforming SDO dialogue (5 kinds), cut or corrupted at a generated step
-        uint32_t kind = c.t.below(6); int cut = 1 + (int)c.t.below(c.t.coin() ? 6 : 140); int corrupt = c.t.chance(80) ? (int)c.t.below(cut) : -1;
+        uint32_t kind = c.t.below(7); int cut = 1 + (int)c.t.below(c.t.coin() ? 6 : 140); int corrupt = c.t.chance(80) ? (int)c.t.below(cut) : -1;
         static const uint16_t OBJ[5] = {0x2001, 0x2007, 0x2008, 0x2100, 0x2300}; uint16_t idx = OBJ[c.t.below(5)]; uint8_t sb = idx == 0x2100 ? (uint8_t)(1 + c.t.below(11)) : 0;
         VLOG(c, "SDO dialogue kind %u on %04X:%02X, cut after %d frames, corrupt at %d", kind, idx, sb, cut, corrupt);
         std::vector<Frame> dlg;
@@ -166,6 +166,11 @@ void c01_case(Ctx &c) {
         else if (kind == 2) { dlg.push_back(sdoframe(sn, c.t.coin() ? 0xC2 : 0xC0, idx, sb, c.t.coin() ? dsz : 1 + c.t.below(4000))); for (int i = 1; i <= cut; i++) { Frame f = sdoframe(sn, (uint8_t)(((i - 1) % 127 + 1) | (i >= cut ? 0x80 : 0)), 0, 0, 0); for (int k = 1; k < 8; k++) f.d[k] = (uint8_t)(i * k); dlg.push_back(f); if (f.d[0] & 0x80) { dlg.push_back(sdoframe(sn, (uint8_t)(0xC1 | (c.t.below(8) << 2)), 0, 0, 0)); break; } } }
         else if (kind == 3) { dlg.push_back(sdoframe(sn, 0xA0, idx, sb, 1 + c.t.below(127))); dlg.push_back(sdoframe(sn, 0xA3, 0, 0, 0)); for (int i = 0; i < cut; i++) { Frame f = sdoframe(sn, 0xA2, 0, 0, 0); f.d[1] = (uint8_t)c.t.below(128); f.d[2] = (uint8_t)(c.t.chance(230) ? 1 + c.t.below(127) : c.t.byte()); f.d[3] = 0; dlg.push_back(f); } dlg.push_back(sdoframe(sn, 0xA1, 0, 0, 0)); }
         else if (kind == 4) { uint32_t v = c.t.u32(); dlg.push_back(sdoframe(sn, (uint8_t)(0x23 | (c.t.below(4) << 2)), idx, sb, v)); dlg.push_back(sdoframe(sn, 0x40, idx, sb, 0)); }
+        else if (kind == 6) {   // block download: full sub-blocks of 127 segments without a last flag, then the end frame
+          dlg.push_back(sdoframe(sn, c.t.coin() ? 0xC2 : 0xC0, idx, sb, c.t.coin() ? dsz : 1 + c.t.below(4000))); int blocks = 1 + (int)c.t.below(3);
+          for (int i = 0; i < blocks * 127; i++) { Frame f = sdoframe(sn, (uint8_t)(i % 127 + 1), 0, 0, 0); for (int k = 1; k < 8; k++) f.d[k] = (uint8_t)(i + k); dlg.push_back(f); }
+          dlg.push_back(sdoframe(sn, (uint8_t)(0xC1 | (c.t.below(8) << 2)), 0, 0, 0)); cut = (int)dlg.size(); corrupt = -1;
+        }
         else { dlg.push_back(sdoframe(sn, 0xC2, 0x2007, 0, 2)); Frame f = sdoframe(sn, 0x81, 1, 2, 3); dlg.push_back(f); dlg.push_back(f); dlg.push_back(sdoframe(sn, (uint8_t)(0xC1 | (5 << 2)), 0, 0, 0)); }
         bool docut = c.t.coin();
         int cnt = 0; for (auto &f : dlg) { if (docut && cnt >= cut) break; if (cnt == corrupt) { f.d[c.t.below(8)] ^= (uint8_t)(1u << c.t.below(8)); } s.rx(f); cnt++; }
